@@ -105,6 +105,7 @@ type exchangeSpec struct {
 	passHost      bool
 	plan          backendPlan
 	headerTimeout time.Duration
+	ctxTimeout    time.Duration // deadline put on the request context in front of the forwarder (a timeout middleware)
 	// client behaviour
 	clientCloseWhenBackendHasRequest bool // client goes away while the backend is stalled before responding
 	clientCloseAfterBody             int  // >0: client closes after reading that many body bytes (backend stalled mid-body)
@@ -233,6 +234,11 @@ func runExchange(spec exchangeSpec) exchangeResult {
 		req.URL = &url.URL{Scheme: "http", Host: backendHost}
 		if spec.tlsOn {
 			req.TLS = &tls.ConnectionState{}
+		}
+		if spec.ctxTimeout > 0 {
+			ctx, cancel := context.WithTimeout(req.Context(), spec.ctxTimeout)
+			defer cancel()
+			req = req.WithContext(ctx)
 		}
 		fwd.ServeHTTP(w, req)
 	})
